@@ -75,6 +75,8 @@ def run(facts, rep):
     want = ('arg2', 'arg3', 'neg(div_round(index(*arg1.lambda, (arg3, arg2)), index(*arg1.det, arg2)))')
     if calls == {want}:
         rep.ok('E25.O2-reduce-step', inst, 'fixes mu[k,i], changes mu[k,j] for j < i')
+    elif not calls or not all(all(re.match(r'^(neg|div_round|index|arg[123]|lambda|det|\.|[(), ])*$', x) for x in c) for c in calls):
+        rep.indet('E25.O2: LLLData::reduce outside the recognised fragment: %s' % sorted(calls))
     else:
         rep.violation('E25.O2-reduce-step', inst, 'reduce performs %s, expected add_row_to(i, k, -round(lambda[k,i] / d[i]))' % sorted(calls), where=red.where())
     # O3
